@@ -123,6 +123,40 @@ Theorem ref_discipline_buddy :
   forallb (fun m => forallb (balanced m) (paths m)) methods_buddy = true.
 Proof. exact ref_discipline_buddy_ok. Qed.
 
+(** Raising paths included.  The strict discipline asks of a path that ends
+    in an explicit `raise` what it asks of a returning one: nothing the
+    function took is still held.  It holds for every function of the four
+    wrappers except the raising paths counted below, which are internal
+    assertion failures or NULL results of the library after temporaries were
+    taken (cudd.pyx: `_load_dddmp` raises on a NULL result, the self-tests
+    `_test_incref` / `_test_decref` raise with the reference they test;
+    cudd_zdd.pyx: the assertions inside `_c_compose` / `_compose_root` /
+    `_compose`).  A new `raise` placed after a reference was taken, in any
+    other function or as one more path of these, makes the statement false. *)
+Theorem C19_raising_paths_cudd :
+  raise_paths_ok [("BDD._load_dddmp", 1); ("_test_incref", 1); ("_test_decref", 1)] methods_cudd = true.
+Proof. exact raise_paths_cudd_ok. Qed.
+Theorem C19_raising_paths_cudd_zdd :
+  raise_paths_ok [("_c_compose", 3); ("_compose_root", 2); ("_compose", 5)] methods_cudd_zdd = true.
+Proof. exact raise_paths_cudd_zdd_ok. Qed.
+Theorem C19_raising_paths_sylvan : raise_paths_ok [] methods_sylvan = true.
+Proof. exact raise_paths_sylvan_ok. Qed.
+Theorem C19_raising_paths_buddy : raise_paths_ok [] methods_buddy = true.
+Proof. exact raise_paths_buddy_ok. Qed.
+Theorem C19_raising_paths_exceptions_needed :
+  raise_paths_ok [("_test_incref", 1); ("_test_decref", 1)] methods_cudd = false ∧
+  raise_paths_ok [("BDD._load_dddmp", 1); ("_test_incref", 0); ("_test_decref", 1)] methods_cudd = false ∧
+  raise_paths_ok [("_c_compose", 2); ("_compose_root", 2); ("_compose", 5)] methods_cudd_zdd = false ∧
+  raise_paths_ok [("_c_compose", 3); ("_compose_root", 2); ("_compose", 4)] methods_cudd_zdd = false.
+Proof. exact raise_paths_exceptions_needed. Qed.
+Example C19_strict_discriminates :
+  let m := Method "demo" KCpdef None ["self"; "u"] [] in
+  balanced m [ERef "p"; ERaise] = true ∧
+  balanced_strict m [ERef "p"; ERaise] = false ∧
+  balanced_strict m [ERef "p"; EDeref "p"; ERaise] = true ∧
+  balanced_strict m [ELoop [[ERef "g"; EStore "vec" "g"]]; ERaise] = false.
+Proof. by vm_compute. Qed.
+
 (** No `def` / `cpdef` function returns a bare library node: every node
     result goes through `wrap(..)` / `Function(..)`. *)
 Theorem C19_nodes_are_wrapped :
